@@ -6,7 +6,7 @@
    (independent hand-written Kafka layout table), model/C11Negotiate.v, model/C11Tables.v. *)
 From Coq Require Import ZArith List Bool String.
 From Verif Require Import Wire WireTables KafkaSpec C11Negotiate C11Tables WireRun Schemas
-                          C11_roundtrip C11_negotiate C11_flat C11_tables.
+                          C11_roundtrip C11_unordered C11_negotiate C11_flat C11_tables.
 Import ListNotations.
 Open Scope Z_scope.
 
@@ -15,11 +15,26 @@ Open Scope Z_scope.
    (integer extremes, null / empty / 32767-byte strings, null / empty / nested arrays, null
    bytes, varints of every length, tagged fields with contents), decoding the encoding —
    followed by arbitrary further bytes — returns the value and exactly those further bytes.
-   [wt] excludes, and says so: VarInt32 outside 0..2^31-1, VarInt64 outside 0..63 (items 7),
-   TaggedFields whose tags are not > 0 and strictly increasing in iteration order. *)
+   [wt] is the set of canonical values; it restricts, and says so: VarInt32 to 0..2^31-1,
+   VarInt64 to 0..63 (item 7; no struct uses them), TaggedFields to tags >= 0 listed in
+   strictly increasing order (the form decode returns; other orders: c11_roundtrip_unordered). *)
 Theorem c11_roundtrip : forall t v r, wt t v = true -> dec t (enc t v ++ r) = Some (v, r).
 Proof. exact roundtrip. Qed.
 Print Assumptions c11_roundtrip.
+
+(* TaggedFields values are Python dicts; the model carries a dict as its item list in
+   iteration order.  For every value whose dicts have distinct tags in 0..2^32-1 in ANY
+   order ([wtu]), the encoding is that of the value with each dict sorted by tag ([vnorm],
+   the same finite maps), and decoding returns exactly that sorted value. *)
+Theorem c11_roundtrip_unordered : forall t v r,
+  wtu t v = true -> dec t (enc t v ++ r) = Some (vnorm v, r).
+Proof. exact roundtrip_unordered. Qed.
+Print Assumptions c11_roundtrip_unordered.
+
+Theorem c11_unordered_normal_form : forall t v,
+  wtu t v = true -> enc t (vnorm v) = enc t v /\ wt t (vnorm v) = true.
+Proof. exact norm_all. Qed.
+Print Assumptions c11_unordered_normal_form.
 
 (* every schema generated from the tree (103 request structs, 103 response structs, headers,
    consumer-protocol / sticky / legacy-message schemas) uses only types whose [wt] is the
@@ -42,11 +57,11 @@ Definition C11_layout_conforms_full : Prop :=
   (forall r, In r responses -> resp_layout_ok r = true).
 
 (* Proved: the full statement except for the structs named in
-   [known_layout_deviations] (OffsetRequest_v4/_v5: current_leader_epoch written as int64,
-   Kafka has int32; DescribeAclsRequest_v2/Response_v2: v2 is a flexible version in Kafka,
-   the tree declares the v1 layout and FLEXIBLE_VERSION = False).  None of the four is in
-   a builder's _CLASSES.  Entries of the table whose version KafkaSpec does not state
-   count as conforming here; the check reports them as "not covered" (currently none). *)
+   [known_layout_deviations] (DescribeAclsRequest_v2 / DescribeAclsResponse_v2: v2 is a
+   flexible version in Kafka, the tree declares the v1 layout and FLEXIBLE_VERSION = False;
+   neither is in a builder's _CLASSES).  Entries of the table whose version KafkaSpec does
+   not state count as conforming here; the check reports them as "not covered"
+   (currently none). *)
 Theorem c11_layout_conforms_partial :
   (forall r, In r requests -> req_layout_ok r = true \/ In (rq_name r) known_layout_deviations) /\
   (forall r, In r responses -> resp_layout_ok r = true \/ In (rs_name r) known_layout_deviations) /\
@@ -65,11 +80,12 @@ Theorem c11_same_layout_same_bytes : forall s t v,
 Proof. exact layout_eq_same_bytes. Qed.
 Print Assumptions c11_same_layout_same_bytes.
 
-(* the recorded deviations, on literal copies of the schemas as found *)
+(* the layout comparison on literal copies of deviating schemas: the recorded
+   DescribeAcls v2 request, and ListOffsets v4 as it was before its fix *)
 Example c11_layout_deviation_witnesses :
-  option_map (layout_eqb witness_OffsetRequest_v4) (spec_request 2 4) = Some false /\
   option_map (layout_eqb witness_DescribeAclsRequest_v2) (spec_request 29 2) = Some false /\
-  spec_flexible 29 2 = Some true.
+  spec_flexible 29 2 = Some true /\
+  option_map (layout_eqb witness_OffsetRequest_v4_before_fix) (spec_request 2 4) = Some false.
 Proof. vm_compute. repeat split. Qed.
 
 (* ---------------------------------------------------------------------------------------
@@ -220,6 +236,14 @@ Example c11_wt_satisfiable :
                               VTagged []]]);
             VInt 30000; VTagged [(2, []); (4294967295, [0])]]) = true.
 Proof. vm_compute. split; reflexivity. Qed.
+
+Example c11_wtu_satisfiable :
+  wt TTagged (VTagged [(0, [120]); (7, [])]) = true /\
+  wt TTagged (VTagged [(2, [97]); (1, [98])]) = false /\
+  wtu TTagged (VTagged [(2, [97]); (1, [98])]) = true /\
+  enc TTagged (VTagged [(2, [97]); (1, [98])]) = [2; 1; 1; 98; 2; 1; 97] /\
+  vnorm (VTagged [(2, [97]); (1, [98])]) = VTagged [(1, [98]); (2, [97])].
+Proof. vm_compute. repeat split. Qed.
 
 Example c11_prepare_examples :
   prepare [0; 1; 2; 5] false (Some (3, 9)) = Chosen 3 5 /\
